@@ -52,15 +52,16 @@ def ceilings(tier):
     return {F3: ("M4.nonbipartite", 0.004)}
 
 
-def _has_f4_atom(mi):
-    """aromatic group-14 anion, no H, exactly two aromatic neighbours"""
+def _f4_atoms(mi):
+    """aromatic group-14 anions with no H and exactly two aromatic neighbours (written-order indices)"""
     adj = mi.adjacency()
+    out = set()
     for a in mi.atoms:
         if a.aromatic and a.element in ("C", "Si") and a.charge == -1 and a.bracket and not a.hcount:
             na = sum(1 for b in adj[a.idx] if mi.bonds[(min(a.idx, b), max(a.idx, b))] == 1.5)
             if na == 2:
-                return True
-    return False
+                out.add(a.idx)
+    return out
 
 
 F3_SYMPTOMS = ("false_none", "invalid_matching")   # what a blossom-free augmenting-path search can produce
@@ -120,15 +121,23 @@ class Arom(object):
                 ctx.finding("generator-bug", payload, str(e))
                 continue
             inv = {g: kk for kk, g in enumerate(order)}
-            f4 = _has_f4_atom(mi)
+            f4_atoms = _f4_atoms(mi)
+            # F4's mechanism: such an atom is treated as a lone-pair donor.  The listed finding therefore predicts
+            # exactly what selfies does: it behaves as the oracle would with these atoms taken out of P.
+            f4 = False
+            f4_state = {}
+            if f4_atoms and not unknown:
+                Pf = {g for g in P if inv[g] not in f4_atoms}
+                f4_state["exists"] = exact_pm(Pf, {v: [w for w in adj[v] if w in Pf] for v in Pf})
+                f4_state["P"] = {inv[g] for g in Pf}
 
             def blame(key, detail, extra=None):
                 """F3 / F4 are the only listed mechanisms; everything else is a VIOLATION."""
                 p = dict(payload, **(extra or {}))
                 if nonbip:
                     ctx.finding(F3, p, "%s (M4: matching routine wrong on a non-bipartite graph in this call)" % detail)
-                elif f4 and cls != "standard":
-                    ctx.finding(F4, p, "%s (input has a two-neighbour aromatic carbanion)" % detail)
+                elif f4_state and cls != "standard" and f4_state.get("consistent"):
+                    ctx.finding(F4, p, "%s (exactly what treating the two-neighbour aromatic carbanion(s) as lone-pair donors predicts)" % detail)
                 else:
                     ctx.finding(key, p, detail)
 
@@ -137,6 +146,9 @@ class Arom(object):
                 outcomes.append(("esc", None))
                 continue
             accepted = r[0] == "ok"
+            if f4_state:
+                # consistent with the F4 mechanism so far iff acceptance is what the reduced P predicts
+                f4_state["consistent"] = (accepted == f4_state["exists"])
             if exists is not None and accepted != exists:
                 if accepted:
                     blame("accepts-without-kekule-structure", "encoder accepts although G[P] has no perfect matching")
@@ -188,6 +200,9 @@ class Arom(object):
                 if err:
                     break
             if err:
+                if f4_state and f4_state.get("consistent"):
+                    f4_state["consistent"] = all(dbl[a.idx] == (1 if a.idx in f4_state["P"] else 0)
+                                                 for a in mi.atoms if a.aromatic)
                 blame("wrong-pi-assignment", err, {"output": d[1]})
             outcomes.append((True, frozenset(order[i] for i in range(len(mi.atoms)) if dbl[i])))
         # order independence over the spellings of this molecule
